@@ -459,7 +459,7 @@ impl Scenario for IoFaults {
         "io_faults"
     }
     fn runs(&self, tier: Tier) -> u64 {
-        tier.pick(13_000, 60_000)
+        tier.pick(13_000, 300_000)
     }
     fn generate(&self, g: &mut Gen, _t: Tier, idx: u64) -> Value {
         let (fmt, elts) = FMTS[(idx % FMTS.len() as u64) as usize];
